@@ -29,11 +29,22 @@ use zipora::memory::{
 };
 
 const HEADER: &str = r#"From ZV.Common Require Import Base Run.
-From ZV.C07 Require Import Model.
+From ZV.C07 Require Import Model ModelFive ModelTL ModelTiered ModelSecure ModelMmap Cases.
 Open Scope N_scope.
+Definition case_t := xcase.
+Definition ok := xok.
 "#;
 
-struct Ctx { sum: Summary, shards: CoqShards, budget: usize, impl_bins: Vec<u64>, out: String }
+struct Ctx { sum: Summary, shards: CoqShards, budget: usize, impl_bins: Vec<u64>, tl_classes: Vec<u64>, out: String, used: HashMap<&'static str, usize>, thorough: bool }
+impl Ctx {
+    /// per-cell budget of Coq-evaluated cases (quick tier: about 1500 in total)
+    fn room(&mut self, key: &'static str, force: bool) -> bool {
+        let cap = match key { "lockfree" => 340, "fixedcap" => 170, "bump" => 230, "five" => 300, "threadlocal" => 140, "tiered" => 110, "secure" => 110, "mempool" => 30, "mmap" => 60, _ => 0 }
+                  * if self.thorough { 7 } else { 1 };
+        let n = self.used.entry(key).or_insert(0);
+        if force || (*n < cap && self.shards.len() < self.budget) { *n += 1; true } else { false }
+    }
+}
 
 // ------------------------------------------------------------------------------------------------
 // pools under test behind one interface
@@ -58,6 +69,8 @@ trait Put {
     fn scope_end(&mut self) {}
     /// the request size the pool actually serves for a request of `size` (fixed-chunk pools ignore the size)
     fn effective(&self, size: usize) -> usize { size }
+    /// called once after every operation of the history (pools record their statistics here)
+    fn note(&mut self) {}
     /// finding class an overlap / out-of-range failure of this pool falls in, if any
     fn overlap_class(&self) -> Option<&'static str> { None }
 }
@@ -89,6 +102,7 @@ fn drive(cx: &mut Ctx, cell: &str, cj: &Value, put: &mut dyn Put, ops: &[Vec<u64
     let mut scope_depth = 0usize;
     macro_rules! bad { ($class:expr, $($a:tt)*) => {{ cx.sum.fail(cell, $class, cj.clone(), &format!($($a)*)); return None; }}; }
     for (n, op) in ops.iter().enumerate() {
+        if n > 0 { put.note(); }
         let t = op.get(0).copied().unwrap_or(9);
         let a = op.get(1).copied().unwrap_or(0);
         let b = op.get(2).copied().unwrap_or(0);
@@ -172,6 +186,7 @@ fn drive(cx: &mut Ctx, cell: &str, cj: &Value, put: &mut dyn Put, ops: &[Vec<u64
                 bad!(None, "after op {} {:?}: byte {} of live block #{} [{:#x},+{}) changed", n, op, i, l.id, l.addr, l.len); } }
         }
     }
+    if !ops.is_empty() { put.note(); }
     while scope_depth > 0 { live.retain(|l| l.scope != scope_depth); put.scope_end(); scope_depth -= 1; }
     // final full verification, then release everything (RAII guards drop here too)
     for l in &live {
@@ -310,7 +325,7 @@ impl Drop for BumpPut { fn drop(&mut self) { while self.scopes.pop().is_some() {
 
 // ---------------- five-level family (offsets, memory not reachable through the API) ----------------
 enum Five { L1(NoLockingPool), L2(MutexBasedPool), L3(LockFreePool), L4(ThreadLocalPool), L5(FixedCapacityPool), Ad(AdaptiveFiveLevelPool) }
-struct FivePut { p: Five, cfg: FiveLevelPoolConfig, cap: usize, h: HashMap<u64, (MemOffset, usize)>, alias: bool }
+struct FivePut { p: Five, cfg: FiveLevelPoolConfig, cap: usize, h: HashMap<u64, (MemOffset, usize)>, alias: bool, stats: Vec<(usize, usize, Option<usize>)> }
 fn off_value(o: &MemOffset) -> usize {
     let s = format!("{:?}", o);
     s.chars().filter(|c| c.is_ascii_digit()).collect::<String>().parse::<usize>().unwrap_or(usize::MAX)
@@ -333,6 +348,12 @@ impl Put for FivePut {
     fn must_refuse(&self, size: usize) -> bool { size > self.cap }
     fn cfg_align(&self) -> usize { self.cfg.alignment }
     fn overlap_class(&self) -> Option<&'static str> { if self.alias { Some("five_tl_offset_alias") } else { None } }
+    fn note(&mut self) {
+        // stats(): used_memory, fragment_size; remaining_capacity() where the pool has it
+        let (st, rem) = match &self.p { Five::L1(p) => (p.stats(), None), Five::L2(p) => (p.stats(), None), Five::L3(p) => (p.stats(), None),
+                                        Five::L4(p) => (p.stats(), None), Five::L5(p) => (p.stats(), Some(p.remaining_capacity())), Five::Ad(p) => (p.stats(), None) };
+        self.stats.push((st.used_memory, st.fragment_size, rem));
+    }
 }
 fn five_config(preset: u64, align: usize, cap: usize, fast: usize, arena: usize, fixed: usize) -> FiveLevelPoolConfig {
     match preset {
@@ -361,30 +382,85 @@ impl Put for TlPut {
 impl Drop for TlPut { fn drop(&mut self) { self.h.clear(); self.pool.clear_caches(); } }
 
 // ---------------- SecureMemoryPool ----------------
-struct SecPut { h: HashMap<u64, SecurePooledPtr>, pool: Arc<SecureMemoryPool>, chunk: usize, align: usize, bulk: bool }
+struct SecPut { h: HashMap<u64, SecurePooledPtr>, pool: Arc<SecureMemoryPool>, chunk: usize, align: usize, bulk: bool,
+                // model comparison: chunk data address -> serial, observation of the current op, of all ops
+                serials: HashMap<usize, u64>, pending: Vec<Option<i64>>, rec: Vec<Vec<Option<i64>>>,
+                // a copy of the record of the chunk given back by the most recent guard drop (for the double-free op)
+                stale: Option<(usize, zipora::memory::secure_pool::SecureChunk)> }
+impl SecPut {
+    fn serial(&mut self, addr: usize) -> i64 { let n = self.serials.len() as u64; *self.serials.entry(addr).or_insert(n) as i64 }
+    fn known(&self, addr: usize) -> i64 { self.serials.get(&addr).map(|&v| v as i64).unwrap_or(-1) }
+    /// the whole bookkeeping state through the inspectors: local cache and shared stack (top first), active table size
+    fn dump(&self) -> Vec<Option<i64>> {
+        let mut v = vec![];
+        let cache = self.pool.verif_local_cache_chunks();
+        v.push(Some(cache.len() as i64));
+        for a in cache.iter().rev() { v.push(Some(self.known(*a))); }
+        let mut stack = vec![];
+        let mut node = self.pool.verif_stack_head();
+        while node != 0 && stack.len() < 100000 { let (next, data) = unsafe { self.pool.verif_stack_node(node) }; stack.push(data); node = next; }
+        v.push(Some(stack.len() as i64));
+        for a in &stack { v.push(Some(self.known(*a))); }
+        v.push(Some(self.pool.verif_active_len() as i64));
+        v
+    }
+}
 impl Put for SecPut {
     fn alloc(&mut self, id: u64, _size: usize, _align: usize) -> Option<Blk> {
-        let mut p = if self.bulk && id % 4 == 0 { self.pool.allocate_bulk_with_prefetch(&[self.chunk]).ok()?.pop()? }
-                    else if id % 4 == 1 { self.pool.allocate_with_hint(true).ok()? } else { self.pool.allocate().ok()? };
+        let r = if self.bulk && id % 4 == 0 { self.pool.allocate_bulk_with_prefetch(&[self.chunk]).ok().and_then(|mut v| v.pop()) }
+                else if id % 4 == 1 { self.pool.allocate_with_hint(true).ok() } else { self.pool.allocate().ok() };
+        let mut p = match r { Some(p) => p, None => { self.pending = vec![None, None]; return None; } };
         let blk = Blk { addr: p.as_ptr() as usize, usable: p.size(), mem: true };
         let _ = p.as_mut_slice().len();
+        let ser = self.serial(blk.addr);
+        self.pending = vec![Some(ser), Some(p.generation() as i64)];
+        self.pending.extend(self.dump());
         self.h.insert(id, p);
         Some(blk)
     }
-    fn free(&mut self, id: u64) -> bool { self.h.remove(&id); true }
+    fn free(&mut self, id: u64) -> bool {
+        if let Some(g) = self.h.remove(&id) {
+            self.stale = SecureMemoryPool::verif_chunk_copy(&g).map(|c| (g.as_ptr() as usize, c));
+            drop(g);
+        }
+        self.pending = vec![Some(0)];
+        self.pending.extend(self.dump());
+        true
+    }
+    /// a second free of the chunk the most recent guard drop gave back (while it has not been handed out again):
+    /// deallocate_internal must report it; Some(accepted)
+    fn foreign(&mut self, _kind: u64, _size: usize, _first: Option<usize>, _lowest: Option<usize>) -> Option<bool> {
+        let live_again = match &self.stale { Some((a, _)) => self.h.values().any(|g| g.as_ptr() as usize == *a), None => return None };
+        if live_again { return None; }
+        let (_, copy) = self.stale.take().unwrap();
+        let acc = self.pool.verif_deallocate(copy).is_ok();
+        self.pending = vec![if acc { Some(0) } else { None }];
+        self.pending.extend(self.dump());
+        Some(acc)
+    }
     fn cfg_align(&self) -> usize { self.align }
     fn effective(&self, _size: usize) -> usize { self.chunk }
+    fn note(&mut self) { let p = std::mem::take(&mut self.pending); self.rec.push(p); }
 }
 impl Drop for SecPut { fn drop(&mut self) { self.h.clear(); } }
 
 // ---------------- MemoryPool / PooledBuffer / PooledVec ----------------
 enum BasicH { Raw(NonNull<u8>), Buf(PooledBuffer), Vecu(PooledVec<u64>) }
-struct BasicPut { h: HashMap<u64, BasicH>, pool: Option<MemoryPool>, chunk: usize, align: usize, mode: u64 }
+struct BasicPut { h: HashMap<u64, BasicH>, pool: Option<MemoryPool>, chunk: usize, align: usize, mode: u64,
+                  // model comparison (MemoryPool): chunk address -> serial, observation of the current op, of all ops
+                  serials: HashMap<usize, u64>, next: u64, pending: Vec<Option<i64>>, rec: Vec<Vec<Option<i64>>> }
 impl Put for BasicPut {
     fn alloc(&mut self, id: u64, size: usize, _align: usize) -> Option<Blk> {
         match self.mode {
-            0 => { let p = self.pool.as_ref().unwrap().allocate().ok()?; self.h.insert(id, BasicH::Raw(p));
-                   Some(Blk { addr: p.as_ptr() as usize, usable: self.chunk, mem: true }) }
+            0 => { let pool = self.pool.as_ref().unwrap();
+                   let hits = pool.stats().pool_hits;
+                   let p = match pool.allocate() { Ok(p) => p, Err(_) => { self.pending = vec![None, None]; return None; } };
+                   let hit = pool.stats().pool_hits != hits;
+                   let addr = p.as_ptr() as usize;
+                   let ser = if hit { self.serials.get(&addr).map(|&v| v as i64).unwrap_or(-1) } else { let n = self.next; self.next += 1; self.serials.insert(addr, n); n as i64 };
+                   self.pending = vec![Some(hit as i64), Some(ser)];
+                   self.h.insert(id, BasicH::Raw(p));
+                   Some(Blk { addr, usable: self.chunk, mem: true }) }
             1 => { let mut b = PooledBuffer::new(size).ok()?;
                    let blk = Blk { addr: b.as_mut_slice().as_mut_ptr() as usize, usable: b.len(), mem: true };
                    self.h.insert(id, BasicH::Buf(b)); Some(blk) }
@@ -394,11 +470,20 @@ impl Put for BasicPut {
         }
     }
     fn free(&mut self, id: u64) -> bool {
-        match self.h.remove(&id).unwrap() { BasicH::Raw(p) => self.pool.as_ref().unwrap().deallocate(p).is_ok(), _ => true }
+        match self.h.remove(&id).unwrap() {
+            BasicH::Raw(p) => { let pool = self.pool.as_ref().unwrap();
+                                let before = pool.stats().chunks;
+                                let ok = pool.deallocate(p).is_ok();
+                                let kept = pool.stats().chunks > before;
+                                if !kept { self.serials.remove(&(p.as_ptr() as usize)); }
+                                self.pending = vec![Some(kept as i64)];
+                                ok }
+            _ => true }
     }
     fn cfg_align(&self) -> usize { self.align }
     fn must_refuse(&self, size: usize) -> bool { self.mode == 1 && size > PoolConfig::large().chunk_size }
     fn effective(&self, size: usize) -> usize { match self.mode { 0 => self.chunk, 1 => size, _ => 8 } }
+    fn note(&mut self) { let p = std::mem::take(&mut self.pending); self.rec.push(p); }
 }
 impl Drop for BasicPut { fn drop(&mut self) {
     let hs: Vec<u64> = self.h.keys().copied().collect();
@@ -406,31 +491,92 @@ impl Drop for BasicPut { fn drop(&mut self) {
 } }
 
 // ---------------- TieredMemoryAllocator / MemoryMappedAllocator / NUMA / hugepages ----------------
-struct TieredPut { h: HashMap<u64, TieredAllocation>, a: TieredMemoryAllocator, global: bool }
+struct TieredPut { h: HashMap<u64, TieredAllocation>, a: TieredMemoryAllocator, global: bool,
+                   // model comparison: chunk address -> (creating pool, serial), observation of the current op, of all ops
+                   chunks: HashMap<usize, (u64, u64)>, serial: u64, pending: Vec<Option<i64>>, rec: Vec<Vec<Option<i64>>> }
+impl TieredPut {
+    /// (alloc_count, dealloc_count, pool_hits, chunks kept) of pool 0 (small) and pools 1..5 (medium classes of this thread)
+    fn pool_counts(&self) -> Vec<(u64, u64, u64, usize)> {
+        let st = self.a.stats();
+        std::iter::once(&st.small_pool_stats).chain(st.medium_pool_stats.iter()).map(|p| (p.alloc_count, p.dealloc_count, p.pool_hits, p.chunks)).collect()
+    }
+}
 impl Put for TieredPut {
     fn alloc(&mut self, id: u64, size: usize, _align: usize) -> Option<Blk> {
-        let mut t = if self.global { zipora::memory::tiered_allocate(size) } else { self.a.allocate(size) }.ok()?;
-        let blk = Blk { addr: t.as_ptr::<u8>() as usize, usable: t.size(), mem: true };
+        if self.global {
+            let mut t = zipora::memory::tiered_allocate(size).ok()?;
+            let blk = Blk { addr: t.as_ptr::<u8>() as usize, usable: t.size(), mem: true };
+            let _ = t.as_mut_slice().len();
+            self.h.insert(id, t);
+            return Some(blk);
+        }
+        let before = self.pool_counts();
+        let r = self.a.allocate(size);
+        let after = self.pool_counts();
+        let mut t = match r { Ok(t) => t, Err(_) => { self.pending = vec![None; 5]; return None; } };
+        let addr = t.as_ptr::<u8>() as usize;
+        let tier = match &t { TieredAllocation::Small(..) => 0i64, TieredAllocation::Medium(..) => 1, TieredAllocation::Large(..) => 2, _ => 3 };
+        self.pending = if tier >= 2 { vec![Some(tier), None, None, None, None] } else {
+            let j = (0..before.len().min(after.len())).find(|&j| after[j].0 != before[j].0);
+            match j { None => vec![Some(tier), Some(-1), None, None, None],
+                Some(j) => { let hit = after[j].2 != before[j].2;
+                    let (creator, serial) = if hit { self.chunks.get(&addr).copied().unwrap_or((99, 99)) }
+                                            else { let e = (j as u64, self.serial); self.serial += 1; self.chunks.insert(addr, e); e };
+                    vec![Some(tier), Some(j as i64), Some(hit as i64), Some(creator as i64), Some(serial as i64)] } } };
+        let blk = Blk { addr, usable: t.size(), mem: true };
         let _ = t.as_mut_slice().len();
         self.h.insert(id, t);
         Some(blk)
     }
-    fn free(&mut self, id: u64) -> bool { let t = self.h.remove(&id).unwrap(); if self.global { zipora::memory::tiered_deallocate(t).is_ok() } else { self.a.deallocate(t).is_ok() } }
+    fn free(&mut self, id: u64) -> bool {
+        let t = self.h.remove(&id).unwrap();
+        if self.global { return zipora::memory::tiered_deallocate(t).is_ok(); }
+        let addr = t.as_ptr::<u8>() as usize;
+        let pooled = matches!(&t, TieredAllocation::Small(..) | TieredAllocation::Medium(..));
+        let before = self.pool_counts();
+        let ok = self.a.deallocate(t).is_ok();
+        let after = self.pool_counts();
+        self.pending = if !pooled { vec![Some(9), Some(0)] } else {
+            match (0..before.len().min(after.len())).find(|&j| after[j].1 != before[j].1) {
+                None => vec![Some(-1), Some(0)],
+                Some(j) => { let kept = after[j].3 > before[j].3; if !kept { self.chunks.remove(&addr); } vec![Some(j as i64), Some(kept as i64)] } } };
+        ok
+    }
     fn cfg_align(&self) -> usize { 8 }
+    fn note(&mut self) { let p = std::mem::take(&mut self.pending); self.rec.push(p); }
 }
 impl Drop for TieredPut { fn drop(&mut self) { let hs: Vec<u64> = self.h.keys().copied().collect(); for id in hs { self.free(id); } } }
 
-struct MmapPut { h: HashMap<u64, MmapAllocation>, a: MemoryMappedAllocator }
+struct MmapPut { h: HashMap<u64, MmapAllocation>, a: MemoryMappedAllocator,
+                 // model comparison: region address -> serial, observation of the current op, of all ops
+                 serials: HashMap<usize, u64>, next: u64, pending: Vec<Option<i64>>, rec: Vec<Vec<Option<i64>>> }
 impl Put for MmapPut {
     fn alloc(&mut self, id: u64, size: usize, _align: usize) -> Option<Blk> {
-        let mut m = self.a.allocate(size).ok()?;
-        let blk = Blk { addr: m.as_mut_ptr() as usize, usable: m.size(), mem: true };
+        let hits = self.a.stats().cache_hits;
+        let mut m = match self.a.allocate(size) { Ok(m) => m, Err(_) => { self.pending = vec![None; 3]; return None; } };
+        let hit = self.a.stats().cache_hits != hits;
+        let addr = m.as_mut_ptr() as usize;
+        let ser = if hit { self.serials.get(&addr).map(|&v| v as i64).unwrap_or(-1) } else { let n = self.next; self.next += 1; self.serials.insert(addr, n); n as i64 };
+        let page = unsafe { libc::sysconf(libc::_SC_PAGESIZE) } as usize;
+        // the usable size is the request rounded up to whole pages (the mapping), the guard exposes the requested size
+        self.pending = vec![Some(hit as i64), Some(ser), Some((size.div_ceil(page) * page) as i64)];
+        let blk = Blk { addr, usable: m.size(), mem: true };
         self.h.insert(id, m);
         Some(blk)
     }
-    fn free(&mut self, id: u64) -> bool { let m = self.h.remove(&id).unwrap(); self.a.deallocate(m).is_ok() }
+    fn free(&mut self, id: u64) -> bool {
+        let m = self.h.remove(&id).unwrap();
+        let addr = m.as_slice().as_ptr() as usize;
+        let before = self.a.stats().cached_regions;
+        let ok = self.a.deallocate(m).is_ok();
+        let kept = self.a.stats().cached_regions > before;
+        if !kept { self.serials.remove(&addr); }
+        self.pending = vec![Some(kept as i64)];
+        ok
+    }
     fn cfg_align(&self) -> usize { 4096 }
     fn must_refuse(&self, size: usize) -> bool { size > (1usize << 47) }
+    fn note(&mut self) { let p = std::mem::take(&mut self.pending); self.rec.push(p); }
 }
 impl Drop for MmapPut { fn drop(&mut self) { let hs: Vec<u64> = self.h.keys().copied().collect(); for id in hs { self.free(id); } } }
 
@@ -489,7 +635,7 @@ fn run_case(cx: &mut Ctx, c: &Value, force: bool) {
                 Err(p) => { cx.sum.fail(cell, None, c.clone(), &format!("LockFreeMemoryPool::new panicked: {}", p)); return; } };
             let mut put = LfPut { pool: Arc::new(pool), msize, h: HashMap::new(), raii: u(c, "raii") != 0, foreign_buf: vec![0u64; 2048] };
             if let Some(obs) = drive(cx, cell, c, &mut put, &ops) {
-                if force || cx.shards.len() < cx.budget {
+                if cx.room("lockfree", force) {
                     // offsets relative to the first successful allocation
                     let first = ops.iter().zip(obs.iter()).find(|(o, r)| o[0] == 0 && r.is_some()).map(|(_, r)| r.unwrap()).unwrap_or(0);
                     let mut cops = vec![]; let mut exp = vec![];
@@ -503,7 +649,7 @@ fn run_case(cx: &mut Ctx, c: &Value, force: bool) {
                             _ => {}
                         }
                     }
-                    let term = format!("CLf {} {} [{}] [{}]", coq_n_list(cx.impl_bins.iter().map(|&x| x as u128)), msize, cops.join("; "), exp.join("; "));
+                    let term = format!("XOld (CLf {} {} [{}] [{}])", coq_n_list(cx.impl_bins.iter().map(|&x| x as u128)), msize, cops.join("; "), exp.join("; "));
                     cx.shards.push(term, c.clone());
                 }
             }
@@ -518,7 +664,7 @@ fn run_case(cx: &mut Ctx, c: &Value, force: bool) {
             let mut put = FcPut { h: HashMap::new(), pool: Box::new(pool), cfg };
             if let Some(obs) = drive(cx, cell, c, &mut put, &ops) {
                 // model comparison (pools of at most 2000 blocks keep the Coq terms small)
-                if nb <= 2000 && (force || cx.shards.len() < cx.budget) {
+                if nb <= 2000 && cx.room("fixedcap", force) {
                     let first = ops.iter().zip(obs.iter()).find(|(o, r)| o[0] == 0 && r.is_some()).map(|(_, r)| r.unwrap()).unwrap_or(0);
                     let mut cops = vec![]; let mut exp = vec![];
                     for (o, r) in ops.iter().zip(obs.iter()) {
@@ -528,7 +674,7 @@ fn run_case(cx: &mut Ctx, c: &Value, force: bool) {
                             _ => {}
                         }
                     }
-                    cx.shards.push(format!("CFc {} {} {} [{}] [{}]", mx, al, nb, cops.join("; "), exp.join("; ")), c.clone());
+                    cx.shards.push(format!("XOld (CFc {} {} {} [{}] [{}])", mx, al, nb, cops.join("; "), exp.join("; ")), c.clone());
                 }
             }
         }
@@ -548,7 +694,7 @@ fn run_case(cx: &mut Ctx, c: &Value, force: bool) {
                     let mut d = 0; let mut okk = true;
                     for o in &ops { match o[0] { 3 => { d += 1; if d > 1 { okk = false; } } 4 => { if d == 0 { okk = false; } else { d -= 1; } } 0 => {} _ => { if d > 0 { okk = false; } } } }
                     okk && d == 0 };
-                if shape_ok && (force || cx.shards.len() < cx.budget) {
+                if shape_ok && cx.room("bump", force) {
                     let base = obs[0].unwrap();
                     let mut cops: Vec<String> = vec![]; let mut exp = vec![]; let mut inner: Option<Vec<String>> = None;
                     for (o, r) in ops.iter().zip(obs.iter()) {
@@ -561,58 +707,128 @@ fn run_case(cx: &mut Ctx, c: &Value, force: bool) {
                             _ => {}
                         }
                     }
-                    let term = format!("CBump {} {} [{}] [{}]", cap, base, cops.join("; "), exp.join("; "));
+                    let term = format!("XOld (CBump {} {} [{}] [{}])", cap, base, cops.join("; "), exp.join("; "));
                     cx.shards.push(term, c.clone());
                 }
             }
         }
         "five" => {
             let level = u(c, "level");
-            let cell = format!("five_level/{}", ["NoLockingPool", "MutexBasedPool", "LockFreePool", "ThreadLocalPool", "FixedCapacityPool", "AdaptiveFiveLevelPool"][level.min(5) as usize]);
-            cx.sum.eval(&cell, &key, nontrivial); cx.sum.cell_status(&cell, "S-only");
+            let sub = u(c, "sublevel");
             let cfg = five_config(u(c, "preset"), u(c, "align") as usize, u(c, "cap") as usize, u(c, "fast") as usize, u(c, "arena") as usize, u(c, "fixed") as usize);
             let cfg2 = cfg.clone();
+            // the member of the family the case exercises (for AdaptiveFiveLevelPool::new it depends on the machine,
+            // so it is read back from current_level() below)
+            let ad_level = |sub: u64| [ConcurrencyLevel::SingleThread, ConcurrencyLevel::MultiThreadMutex, ConcurrencyLevel::MultiThreadLockFree, ConcurrencyLevel::ThreadLocal, ConcurrencyLevel::FixedCapacity][((sub - 1) % 5) as usize];
             let made = guarded(move || -> Result<Five, String> { Ok(match level {
                 0 => Five::L1(NoLockingPool::new(cfg2).map_err(|e| e.to_string())?),
                 1 => Five::L2(MutexBasedPool::new(cfg2).map_err(|e| e.to_string())?),
                 2 => Five::L3(LockFreePool::new(cfg2).map_err(|e| e.to_string())?),
                 3 => Five::L4(ThreadLocalPool::new(cfg2).map_err(|e| e.to_string())?),
                 4 => Five::L5(FixedCapacityPool::new(cfg2).map_err(|e| e.to_string())?),
-                _ => { let sub = u(c, "sublevel");
-                       if sub == 0 { Five::Ad(AdaptiveFiveLevelPool::new(cfg2).map_err(|e| e.to_string())?) }
-                       else { let l = [ConcurrencyLevel::SingleThread, ConcurrencyLevel::MultiThreadMutex, ConcurrencyLevel::MultiThreadLockFree, ConcurrencyLevel::ThreadLocal, ConcurrencyLevel::FixedCapacity][((sub - 1) % 5) as usize];
-                              Five::Ad(AdaptiveFiveLevelPool::with_level(cfg2, l).map_err(|e| e.to_string())?) } }
+                _ => { if sub == 0 { Five::Ad(AdaptiveFiveLevelPool::new(cfg2).map_err(|e| e.to_string())?) }
+                       else { Five::Ad(AdaptiveFiveLevelPool::with_level(cfg2, ad_level(sub)).map_err(|e| e.to_string())?) } }
             }) });
-            let p = match made { Ok(Ok(p)) => p, Ok(Err(_)) => { cx.sum.dist("pool_new_refused"); return; }
+            // model kind: 0 NoLock, 1 Mutex, 2 LockFree, 3 ThreadLocal (not modelled), 4 FixedCap; None = not known before construction
+            let kind_of = |l: ConcurrencyLevel| match l { ConcurrencyLevel::SingleThread => 0u64, ConcurrencyLevel::MultiThreadMutex => 1, ConcurrencyLevel::MultiThreadLockFree => 2,
+                                                           ConcurrencyLevel::ThreadLocal => 3, ConcurrencyLevel::FixedCapacity => 4 };
+            let kind: Option<u64> = match (&made, level) {
+                (Ok(Ok(Five::Ad(a))), _) => Some(kind_of(a.current_level())),
+                (_, 0..=4) => Some(level),
+                (_, _) if sub != 0 => Some(kind_of(ad_level(sub))),
+                _ => if cfg.fixed_capacity.is_some() { Some(4) } else { None },
+            };
+            let is_tl = kind == Some(3);
+            let cell = if level >= 5 { format!("five_level/AdaptiveFiveLevelPool{}", if is_tl { "(ThreadLocal)" } else { "" }) }
+                       else { format!("five_level/{}", ["NoLockingPool", "MutexBasedPool", "LockFreePool", "ThreadLocalPool", "FixedCapacityPool"][level as usize]) };
+            cx.sum.eval(&cell, &key, nontrivial);
+            // level 4 is modelled as it is (refutation theorem five_tl_offset_alias_refuted); its overlaps are a listed finding
+            // the model's configuration: the FixedCapacityPool owns max_capacity = fixed_capacity.unwrap_or(initial_capacity)
+            let mcap = if kind == Some(4) { cfg.fixed_capacity.unwrap_or(cfg.initial_capacity) } else { cfg.initial_capacity };
+            let mcfg = format!("(mkFC {} {} {} {})", ["KNoLock", "KMutex", "KLockFree", "KMutex", "KFixedCap"][kind.unwrap_or(0) as usize], cfg.alignment, mcap, cfg.max_fast_block_size);
+            let modelled = !is_tl && kind.is_some();
+            let p = match made { Ok(Ok(p)) => p,
+                Ok(Err(_)) => { cx.sum.dist("pool_new_refused");
+                                if modelled && cx.room("five", force) { cx.shards.push(format!("X5 {} false false [] []", mcfg), c.clone()); }
+                                if is_tl && cx.room("five", force) { cx.shards.push(format!("X5T {} {} false [] []", mcfg, cfg.arena_size), c.clone()); }
+                                return; }
                 Err(p) => { cx.sum.fail(&cell, None, c.clone(), &format!("constructor panicked: {}", p)); return; } };
             let cap = match (&p, cfg.fixed_capacity) { (Five::L5(_), Some(f)) => f, (Five::L4(_), _) => cfg.initial_capacity.max(cfg.arena_size),
                                                         (Five::Ad(_), f) => cfg.initial_capacity.max(cfg.arena_size).max(f.unwrap_or(0)), _ => cfg.initial_capacity };
-            let is_tl = match &p { Five::L4(_) => true, Five::Ad(a) => a.current_level() == ConcurrencyLevel::ThreadLocal, _ => false };
             let alias = five_tl_alias_class(is_tl, &cfg, &ops);
-            let mut put = FivePut { p, cfg, cap, h: HashMap::new(), alias };
-            drive(cx, &cell, c, &mut put, &ops);
+            let direct_fixed = matches!(&p, Five::L5(_));
+            let arena_size = cfg.arena_size;
+            let mut put = FivePut { p, cfg, cap, h: HashMap::new(), alias, stats: vec![] };
+            if let Some(obs) = drive(cx, &cell, c, &mut put, &ops) {
+                if is_tl && cx.room("five", force) {
+                    // level 4: offsets only (histories in which the two offset spaces collide stop at the oracle: known finding)
+                    let mut cops = vec![]; let mut exp = vec![];
+                    for (o, r) in ops.iter().zip(obs.iter()) {
+                        match o[0] { 0 => cops.push(format!("A5 {}", o[1])), 1 => cops.push(format!("F5 {}", o[1])), _ => continue }
+                        exp.push(coq_oz(r));
+                    }
+                    cx.shards.push(format!("X5T {} {} true [{}] [{}]", mcfg, arena_size, cops.join("; "), exp.join("; ")), c.clone());
+                }
+                if modelled && put.stats.len() == ops.len() && cx.room("five", force) {
+                    let mut cops = vec![]; let mut exp = vec![];
+                    for ((o, r), st) in ops.iter().zip(obs.iter()).zip(put.stats.iter()) {
+                        match o[0] { 0 => cops.push(format!("A5 {}", o[1])), 1 => cops.push(format!("F5 {}", o[1])), _ => continue }
+                        exp.push(coq_oz(r));
+                        exp.push(format!("Some {}%Z", st.0)); exp.push(format!("Some {}%Z", st.1));
+                        if let Some(rem) = st.2 { exp.push(format!("Some {}%Z", rem)); }
+                    }
+                    cx.shards.push(format!("X5 {} true {} [{}] [{}]", mcfg, coq_bool(direct_fixed), cops.join("; "), exp.join("; ")), c.clone());
+                }
+            }
         }
         "threadlocal" => {
             let cell = "ThreadLocalMemoryPool";
-            cx.sum.eval(cell, &key, nontrivial); cx.sum.cell_status(cell, "S-only");
+            cx.sum.eval(cell, &key, nontrivial);
             let mut cfg = match u(c, "preset") { 1 => ThreadLocalPoolConfig::default(), 2 => ThreadLocalPoolConfig::high_performance(), _ => ThreadLocalPoolConfig::compact() };
             if u(c, "arena") != 0 { cfg.arena_size = u(c, "arena") as usize; }
             if u(c, "cached") != 0 { cfg.max_cached_chunks = u(c, "cached") as usize; }
             if u(c, "nosecure") != 0 { cfg.use_secure_memory = false; }
+            let (arena, maxc) = (cfg.arena_size, cfg.max_cached_chunks);
             let pool = match guarded(|| ThreadLocalMemoryPool::new(cfg)) { Ok(Ok(p)) => p, _ => { cx.sum.dist("pool_new_refused"); return; } };
             pool.clear_caches();
             let mut put = TlPut { h: HashMap::new(), pool };
-            drive(cx, cell, c, &mut put, &ops);
+            if let Some(obs) = drive(cx, cell, c, &mut put, &ops) {
+                if cx.room("threadlocal", force) {
+                    // an address is (arena, offset): arenas in order of first appearance, the first block of a new arena is its base
+                    let mut bases: Vec<usize> = vec![];
+                    let mut cops = vec![]; let mut exp = vec![];
+                    for (o, r) in ops.iter().zip(obs.iter()) {
+                        match o[0] {
+                            0 => { cops.push(format!("TA {}", o[1]));
+                                   match r { Some(a) => { let a = *a as usize;
+                                                          let k = match bases.iter().position(|&b| b <= a && a - b < arena) { Some(k) => k, None => { bases.push(a); bases.len() - 1 } };
+                                                          exp.push(format!("Some {}%Z", k)); exp.push(format!("Some {}%Z", a - bases[k])); }
+                                             None => { exp.push("None".to_string()); exp.push("None".to_string()); } } }
+                            1 => { cops.push(format!("TF {}", o[1])); exp.push(coq_oz(r)); }
+                            _ => {}
+                        }
+                    }
+                    cx.shards.push(format!("XTl {} (mkTLC {} {}) [{}] [{}]", coq_n_list(cx.tl_classes.iter().map(|&x| x as u128)), arena, maxc, cops.join("; "), exp.join("; ")), c.clone());
+                }
+            }
         }
         "secure" => {
             let cell = "SecureMemoryPool";
-            cx.sum.eval(cell, &key, nontrivial); cx.sum.cell_status(cell, "S-only");
+            cx.sum.eval(cell, &key, nontrivial);
             let cfg = match u(c, "preset") { 1 => SecurePoolConfig::small_secure(), 2 => SecurePoolConfig::medium_secure(), 3 => SecurePoolConfig::large_secure(),
                 _ => SecurePoolConfig::new(u(c, "chunk") as usize, u(c, "maxchunks") as usize, u(c, "align") as usize).with_local_cache_size(u(c, "lcache") as usize).with_zero_on_alloc(u(c, "flags") & 1 != 0) };
-            let (chunk, align) = (cfg.chunk_size, cfg.alignment);
+            let (chunk, align, lcache) = (cfg.chunk_size, cfg.alignment, cfg.local_cache_size);
             let pool = match guarded(|| SecureMemoryPool::new(cfg)) { Ok(Ok(p)) => p, _ => { cx.sum.dist("pool_new_refused"); return; } };
-            let mut put = SecPut { h: HashMap::new(), pool: pool.clone(), chunk, align, bulk: u(c, "flags") & 2 != 0 };
+            let mut put = SecPut { h: HashMap::new(), pool: pool.clone(), chunk, align, bulk: u(c, "flags") & 2 != 0, serials: HashMap::new(), pending: vec![], rec: vec![], stale: None };
             if drive(cx, cell, c, &mut put, &ops).is_some() {
+                if put.rec.len() == ops.len() && cx.room("secure", force) {
+                    let mut cops = vec![]; let mut exp: Vec<String> = vec![];
+                    for (o, r) in ops.iter().zip(put.rec.iter()) {
+                        match o[0] { 0 => cops.push("SAl".to_string()), 1 => cops.push(format!("SFr {}", o[1])), 2 => cops.push("SDbl".to_string()), _ => continue }
+                        for x in r { exp.push(coq_oz(&x.map(|v| v as i128))); }
+                    }
+                    cx.shards.push(format!("XSec {} [{}] [{}]", lcache, cops.join("; "), exp.join("; ")), c.clone());
+                }
                 drop(put);
                 if let Err(e) = pool.validate() { cx.sum.fail(cell, None, c.clone(), &format!("pool.validate() after the history: {}", e)); }
             }
@@ -620,31 +836,70 @@ fn run_case(cx: &mut Ctx, c: &Value, force: bool) {
         "basic" => {
             let mode = u(c, "mode");
             let cell = ["MemoryPool", "PooledBuffer", "PooledVec"][mode.min(2) as usize];
-            cx.sum.eval(cell, &key, nontrivial); cx.sum.cell_status(cell, "S-only");
+            cx.sum.eval(cell, &key, nontrivial);
             let (chunk, align) = (u(c, "chunk") as usize, u(c, "align") as usize);
             let pool = if mode == 0 {
                 let cfg = match u(c, "preset") { 1 => PoolConfig::small(), 2 => PoolConfig::medium(), 3 => PoolConfig::large(), _ => PoolConfig::new(chunk, u(c, "maxchunks") as usize, align) };
                 match guarded(|| MemoryPool::new(cfg)) { Ok(Ok(p)) => Some(p), _ => { cx.sum.dist("pool_new_refused"); return; } }
             } else { None };
             let (chunk, align) = match &pool { Some(p) => (p.config().chunk_size, p.config().alignment), None => (chunk, 8) };
-            let mut put = BasicPut { h: HashMap::new(), pool, chunk, align, mode };
-            drive(cx, cell, c, &mut put, &ops);
+            let maxc = pool.as_ref().map(|p| p.config().max_chunks).unwrap_or(0);
+            if mode != 0 { cx.sum.cell_status(cell, "S-only"); }
+            let mut put = BasicPut { h: HashMap::new(), pool, chunk, align, mode, serials: HashMap::new(), next: 0, pending: vec![], rec: vec![] };
+            if drive(cx, cell, c, &mut put, &ops).is_some() && mode == 0 && put.rec.len() == ops.len() && cx.room("mempool", force) {
+                let mut cops = vec![]; let mut exp: Vec<String> = vec![];
+                for (o, r) in ops.iter().zip(put.rec.iter()) {
+                    match o[0] { 0 => cops.push("MAl".to_string()), 1 => cops.push(format!("MFr {}", o[1])), _ => continue }
+                    for x in r { exp.push(coq_oz(&x.map(|v| v as i128))); }
+                }
+                cx.shards.push(format!("XMp {} [{}] [{}]", maxc, cops.join("; "), exp.join("; ")), c.clone());
+            }
         }
         "tiered" => {
             let cell = "TieredMemoryAllocator";
-            cx.sum.eval(cell, &key, nontrivial); cx.sum.cell_status(cell, "S-only");
+            cx.sum.eval(cell, &key, nontrivial);
             let f = u(c, "flags");
             let cfg = if u(c, "preset") == 1 { TieredConfig::default() } else {
                 TieredConfig { enable_small_pools: f & 1 != 0, enable_medium_pools: f & 2 != 0, enable_mmap_large: f & 4 != 0, enable_hugepages: f & 8 != 0, ..TieredConfig::default() } };
+            let mcfg = format!("(mkTC {} {} {} {} {} {} false)", coq_bool(cfg.enable_small_pools), coq_bool(cfg.enable_medium_pools), coq_bool(cfg.enable_mmap_large),
+                               coq_bool(cfg.enable_hugepages), cfg.mmap_threshold, cfg.hugepage_threshold);
             let a = match guarded(|| TieredMemoryAllocator::new(cfg)) { Ok(Ok(a)) => a, _ => { cx.sum.dist("pool_new_refused"); return; } };
-            let mut put = TieredPut { h: HashMap::new(), a, global: u(c, "preset") == 2 };
-            drive(cx, cell, c, &mut put, &ops);
+            let global = u(c, "preset") == 2;
+            let mut put = TieredPut { h: HashMap::new(), a, global, chunks: HashMap::new(), serial: 0, pending: vec![], rec: vec![] };
+            if drive(cx, cell, c, &mut put, &ops).is_some() {
+                // model comparison: allocators of their own (the global one keeps its small pool across cases), on machines
+                // where hugepage requests are refused (the model's t_hp_ok = false), sizes the mmap tier can certainly serve
+                let hp_ok = HugePageAllocator::new().ok().map(|h| h.allocate(2 << 20).is_ok()).unwrap_or(false);
+                let sizes_ok = ops.iter().all(|o| o[0] != 0 || o[1] <= (64 << 20));
+                if !global && !hp_ok && sizes_ok && put.rec.len() == ops.len() && cx.room("tiered", force) {
+                    let mut cops = vec![]; let mut exp: Vec<String> = vec![];
+                    for (o, r) in ops.iter().zip(put.rec.iter()) {
+                        match o[0] { 0 => cops.push(format!("TAl {}", o[1])), 1 => cops.push(format!("TFr {}", o[1])), _ => continue }
+                        for x in r { exp.push(coq_oz(&x.map(|v| v as i128))); }
+                    }
+                    cx.shards.push(format!("XTi {} [{}] [{}]", mcfg, cops.join("; "), exp.join("; ")), c.clone());
+                }
+            }
         }
         "mmap" => {
             let cell = "MemoryMappedAllocator";
-            cx.sum.eval(cell, &key, nontrivial); cx.sum.cell_status(cell, "S-only");
-            let mut put = MmapPut { h: HashMap::new(), a: MemoryMappedAllocator::new(u(c, "min") as usize) };
-            drive(cx, cell, c, &mut put, &ops);
+            cx.sum.eval(cell, &key, nontrivial);
+            let min = u(c, "min") as usize;
+            let mut put = MmapPut { h: HashMap::new(), a: MemoryMappedAllocator::new(min), serials: HashMap::new(), next: 0, pending: vec![], rec: vec![] };
+            if drive(cx, cell, c, &mut put, &ops).is_some() {
+                // model comparison: sizes a mapping certainly succeeds for (or whose page rounding overflows)
+                let pg = unsafe { libc::sysconf(libc::_SC_PAGESIZE) } as u64;
+                let sizes_ok = ops.iter().all(|o| o[0] != 0 || o[1] <= (1 << 30) || o[1] > u64::MAX - (pg - 1));
+                if sizes_ok && put.rec.len() == ops.len() && cx.room("mmap", force) {
+                    let page = unsafe { libc::sysconf(libc::_SC_PAGESIZE) } as usize;
+                    let mut cops = vec![]; let mut exp: Vec<String> = vec![];
+                    for (o, r) in ops.iter().zip(put.rec.iter()) {
+                        match o[0] { 0 => cops.push(format!("MMA {}", o[1])), 1 => cops.push(format!("MMF {}", o[1])), _ => continue }
+                        for x in r { exp.push(coq_oz(&x.map(|v| v as i128))); }
+                    }
+                    cx.shards.push(format!("XMm {} {} [{}] [{}]", min, page, cops.join("; "), exp.join("; ")), c.clone());
+                }
+            }
         }
         "numa" => {
             let cell = "numa_alloc_aligned";
@@ -750,13 +1005,15 @@ fn gen_case(r: &mut Rng, which: u64, bins: &[u64]) -> Value {
         3 => { // five-level family
             let level = r.below(6);
             let preset = *r.pick(&[0u64, 0, 0, 0, 1, 2, 3, 4]);
-            let align = *r.pick(&[8u64, 8, 16, 32, 64]);
-            let cap = *r.pick(&[256u64, 1024, 4096, 65536]);
+            // alignments below 4 cannot hold the 4-byte free-list link, capacities above u32::MAX cannot be addressed by a
+            // MemOffset: the constructors must refuse both (never hand out blocks)
+            let align = *r.pick(&[8u64, 8, 8, 16, 32, 64, 4, 4, 2, 1]);
+            let cap = if r.chance(1, 40) { *r.pick(&[(1u64 << 32) + 8, 1 << 32, u32::MAX as u64]) } else { *r.pick(&[256u64, 1024, 4096, 65536]) };
             let fast = *r.pick(&[64u64, 256, 1024, 4096]);
             let arena = *r.pick(&[512u64, 2048, 8192, 1 << 16]);
             let fixed = if level == 4 || r.chance(1, 4) { *r.pick(&[128u64, 1024, 4096]) } else { 0 };
             let pcap = match preset { 1 => 1 << 20, 2 => 8 << 20, 3 => 512 << 10, 4 => 16 << 20, _ => if fixed > 0 && level >= 4 { fixed } else { cap } };
-            let cl: Vec<u64> = (1..=8).map(|k| k * align).chain([fast - align, fast, fast + align, 2 * fast]).collect();
+            let cl: Vec<u64> = (1..=8).map(|k| k * align).chain([fast.saturating_sub(align).max(1), fast, fast + align, 2 * fast]).collect();
             let n = r.range(3, 60);
             json!({"cell": "five", "level": level, "sublevel": r.below(6), "preset": preset, "align": align, "cap": cap, "fast": fast, "arena": arena, "fixed": fixed,
                    "ops": gen_ops(r, n, &cl, pcap, true, false, &[1])})
@@ -773,8 +1030,16 @@ fn gen_case(r: &mut Rng, which: u64, bins: &[u64]) -> Value {
         5 => { // secure pool
             let preset = *r.pick(&[0u64, 0, 1, 2, 3]);
             let n = if preset == 3 { r.range(2, 8) } else { r.range(3, 60) };
+            // op 2 = a second free of the chunk the previous guard drop gave back (through the verification hook)
+            let mut ops: Vec<Vec<u64>> = vec![];
+            for mut o in gen_ops(r, n, &[8], 8, false, true, &[1]) {
+                if o[0] == 2 { o[1] = 0; }
+                let was_free = o[0] == 1;
+                ops.push(o);
+                if was_free && r.chance(1, 4) { ops.push(vec![2, 0, 8]); }
+            }
             json!({"cell": "secure", "preset": preset, "chunk": *r.pick(&[1u64, 8, 24, 100, 1024, 4096]), "maxchunks": *r.pick(&[1u64, 4, 100]), "align": *r.pick(&[1u64, 8, 16, 32, 64, 4096]),
-                   "lcache": *r.pick(&[0u64, 1, 2, 64]), "flags": r.below(4), "ops": gen_ops(r, n, &[8], 8, false, false, &[1])})
+                   "lcache": *r.pick(&[0u64, 1, 2, 64]), "flags": r.below(4), "ops": ops})
         }
         6 => { // basic pool + pooled containers
             let mode = *r.pick(&[0u64, 0, 1, 1, 2]);
@@ -811,12 +1076,13 @@ fn gen_case(r: &mut Rng, which: u64, bins: &[u64]) -> Value {
     }
 }
 
-fn read_impl_bins() -> Vec<u64> {
-    // the one "translator": FAST_BIN_SIZES is private, so it is read from the source under test and compared with the
-    // model's table inside every Coq-evaluated case
+fn read_impl_bins() -> Vec<u64> { read_const_list("src/memory/lockfree_pool.rs", "const FAST_BIN_SIZES") }
+fn read_const_list(file: &str, name: &str) -> Vec<u64> {
+    // the one "translator": the size-class tables are private, so they are read from the source under test and compared
+    // with the model's table inside every Coq-evaluated case
     let repo = std::env::var("ZV_REPO").unwrap_or_else(|_| "/repo".to_string());
-    let src = std::fs::read_to_string(format!("{}/src/memory/lockfree_pool.rs", repo)).unwrap_or_default();
-    let Some(i) = src.find("const FAST_BIN_SIZES") else { return vec![] };
+    let src = std::fs::read_to_string(format!("{}/{}", repo, file)).unwrap_or_default();
+    let Some(i) = src.find(name) else { return vec![] };
     let rest = &src[i..];
     let Some(a) = rest.find("&[") else { return vec![] };
     let Some(b) = rest[a..].find("];") else { return vec![] };
@@ -843,7 +1109,8 @@ fn generate(cx: &mut Ctx, args: &Args) {
     for i in 0..rounds {
         // weights: the two modelled pools and the size-class pools get most cases
         for which in [0u64, 0, 0, 1, 2, 2, 3, 3, 4, 5, 6, 7, 8, 9] {
-            if (which == 7 || which == 8 || which == 9 || which == 5 || which == 6) && i % 3 != 0 { continue; }
+            if (which == 8 || which == 9 || which == 6) && i % 3 != 0 { continue; }
+            if (which == 7 || which == 5) && i % 3 == 2 { continue; }
             if only.map(|o| o != which).unwrap_or(false) { continue; }
             let c = gen_case(&mut rng, which, &bins);
             if i < 1 { cx.sum.sample(json!({"cell": c["cell"], "ops": c["ops"].as_array().map(|a| a.iter().take(6).cloned().collect::<Vec<_>>())})); }
@@ -857,9 +1124,12 @@ fn child(args: &Args) {
     let mut cx = Ctx {
         sum: Summary::new("C07", "histories of allocate(size[,align]) / free(k-th live block) / free(foreign pointer) / arena scope begin-end, 3..70 ops, per pool type and configuration (presets and small custom capacities so that exhaustion, recycling and arena turnover happen); sizes drawn around every size-class boundary (c-9..c+8), around the fast-bin threshold, around the capacity, and u32/usize extremes; every live block carries a position-dependent pattern checked after every operation; non-trivial = history with at least two allocations"),
         shards: CoqShards::new(HEADER, 150),
-        budget: if args.thorough { 9000 } else { 1300 },
+        budget: if args.thorough { 9000 } else { 1500 },
         impl_bins: read_impl_bins(),
+        tl_classes: read_const_list("src/memory/threadlocal_pool.rs", "const TLS_SIZE_CLASSES"),
         out: args.out.clone(),
+        used: HashMap::new(),
+        thorough: args.thorough,
     };
     if let Some(f) = &args.replay {
         let v: Value = serde_json::from_str(&std::fs::read_to_string(f).expect("replay file")).expect("json");
